@@ -95,8 +95,12 @@ class Scanner:
                 out.append(("<parameter>", False))
             elif d.kind == "assign" and d.value is not None:
                 v = d.value
-                fresh = isinstance(v, ast.Call) and norm(v.func) in self.FRESH
-                out.append((norm(v), fresh))
+
+                def is_fresh(e):
+                    if isinstance(e, ast.IfExp):
+                        return is_fresh(e.body) and is_fresh(e.orelse)      # every arm makes a new object
+                    return isinstance(e, ast.Call) and norm(e.func) in self.FRESH
+                out.append((norm(v), is_fresh(v)))
             else:
                 out.append((d.kind, False))
         return out
@@ -367,6 +371,11 @@ def run(repo: Repo, chk: Check):
                     raise AnalysisError(f"compile_code: name expression {norm(nm)} for a negated directive not understood")
                 chk.judge("R15.b", key + ":exactly the prefix is removed from a negated name", ok_name, why, {"name": norm(nm)}, where)
             else:
+                # a plain name does not start with the prefix: X.removeprefix('no_') is X
+                for _ in range(3):
+                    if isinstance(inner, ast.Call) and isinstance(inner.func, ast.Attribute) and inner.func.attr == "removeprefix" and len(inner.args) == 1 \
+                            and isinstance(inner.args[0], ast.Constant) and inner.args[0].value == PREFIX:
+                        inner = _strip_chain(inner.func.value)
                 t = _norm_tag(inner, T)
                 if t is None:
                     raise AnalysisError(f"compile_code: name expression {norm(nm)} for a plain directive not understood")
